@@ -70,6 +70,8 @@ pub mod bbsplus_utils {
     /// * `Vec<u8>`, a secret
     pub fn generate_random_secret(n: usize) -> Vec<u8> {
         let mut rng = thread_rng();
+        #[cfg(feature = "verif_hooks")]
+        let mut rng = crate::utils::verif_hooks::ObservedRng(rng, "generate_random_secret");
         let mut secret = vec![0; n]; // Initialize a vector of length n with zeros
         rng.fill_bytes(&mut secret); // Fill the vector with random bytes
         secret
@@ -118,6 +120,8 @@ pub mod bbsplus_utils {
         if dst.len() > 255 {
             return Err(Error::HashToScalarError);
         }
+        #[cfg(feature = "verif_hooks")]
+        crate::utils::verif_hooks::work(crate::utils::verif_hooks::Work::HashToScalar, msg_octects.len());
         let mut uniform_bytes = vec![0u8; CS::EXPAND_LEN];
         let dsts = [dst];
 
@@ -325,6 +329,8 @@ pub mod bbsplus_utils {
 
     pub(crate) fn get_random() -> Scalar {
         let rng = rand::thread_rng();
+        #[cfg(feature = "verif_hooks")]
+        let rng = crate::utils::verif_hooks::ObservedRng(rng, "get_random");
         Scalar::random(rng)
     }
 
